@@ -740,7 +740,11 @@ func globalStoredOutsideInit(p *Prog, g *ssa.Global) bool {
 
 func chainHas(steps []chainStep, set map[string]bool) int {
 	for i, s := range steps {
-		if set[s.Callee] {
+		cal := s.Callee
+		if j := strings.Index(cal, "<"); j > 0 {
+			cal = cal[:j]
+		}
+		if set[cal] {
 			return i
 		}
 	}
@@ -750,6 +754,13 @@ func chainHas(steps []chainStep, set map[string]bool) int {
 // foldedOK: steps are outermost-first. Requires lower-casing applied after (outer of) NFC; optionally IDNA innermost.
 func foldedOK(steps []chainStep, needIDNA bool) (bool, string) {
 	lo, nf := chainHas(steps, c17Lower), chainHas(steps, c17NFC)
+	// lower-casing maps letter to letter; full case FOLDING (cases.Fold) is many-to-one on valid IDNA2008 letters
+	// (ß → ss, ς → σ): straße.example and strasse.example are two registrable domains and would get one key
+	for _, s := range steps {
+		if strings.HasSuffix(s.Callee, "<cases.Fold>") {
+			return false, "the key is made with full Unicode case folding (cases.Fold), which maps ß to ss and ς to σ: two different registrable domains (straße.example, strasse.example) get the same key – a user of one is entitled to addresses of the other"
+		}
+	}
 	if nf < 0 {
 		return false, "value is not NFC-normalised"
 	}
